@@ -1,6 +1,7 @@
 import ast
 import json
 import logging
+import os
 from pathlib import Path
 from typing import TYPE_CHECKING, Any, Dict, List, Tuple, Union
 
@@ -270,23 +271,35 @@ class Parser:
         compiled_hints = None
         if hints_file.exists():
             hints_file_compiled = hints_file.with_suffix(".pgec")
-            # Compiled hints are keyed by LR states so they are stale if any of
-            # the grammar files (imported ones too) or the hints file is newer.
-            source_files = [grammar_file, hints_file]
-            source_files.extend(Path(f) for f in self.grammar.imported_files)
-            if not hints_file_compiled.exists() or any(
-                f.stat().st_mtime > hints_file_compiled.stat().st_mtime
-                for f in source_files
-            ):
+            if hints_file_compiled.exists():
+                # Compiled hints are keyed by LR states so they are stale if
+                # any of the grammar files (imported ones too) or the hints
+                # file is newer.
+                compiled_mtime = hints_file_compiled.stat().st_mtime
+                source_files = [grammar_file, hints_file]
+                source_files.extend(Path(f) for f in self.grammar.imported_files)
+                if all(f.stat().st_mtime <= compiled_mtime for f in source_files):
+                    try:
+                        with open(hints_file_compiled) as f:
+                            loaded = json.load(f)
+                        compiled_hints = {
+                            ast.literal_eval(k): v for k, v in loaded.items()
+                        }
+                    except ValueError:
+                        # Not a complete file (e.g. left by an interrupted
+                        # write). Compile again.
+                        compiled_hints = None
+
+            if compiled_hints is None:
                 # Compilation is needed
                 compiled_hints = compile_errors(hints_file)
-                with open(hints_file_compiled, "w") as f:
+                # Write to a temporary file and move it in place so that an
+                # interrupted write can't leave an incomplete file behind.
+                hints_file_tmp = f"{hints_file_compiled}.tmp"
+                with open(hints_file_tmp, "w") as f:
                     serializable = {str(k): v for k, v in compiled_hints.items()}
                     json.dump(serializable, f)
-            else:
-                with open(hints_file_compiled) as f:
-                    loaded = json.load(f)
-                    compiled_hints = {ast.literal_eval(k): v for k, v in loaded.items()}
+                os.replace(hints_file_tmp, hints_file_compiled)
 
         del self._in_error_hints
         return compiled_hints
